@@ -18,7 +18,8 @@ def _const(draw, consts):
 @st.composite
 def programs(draw, max_preds=5, allow_evidence=True, allow_neg=True, allow_rec=True, allow_ads=True,
              allow_nonground_query=True, allow_neg_query=True, min_queries=1, allow_negcycle=False,
-             max_clauses=3, allow_shuffle=True, max_consts=3, prob_grid=None, neg_bias=False):
+             max_clauses=3, allow_shuffle=True, max_consts=3, prob_grid=None, neg_bias=False, allow_body_or=True,
+             share_bias=False):
     grid = prob_grid or PROB_GRID
     nconst = draw(st.integers(1, max_consts))
     consts = CONSTS[:nconst]
@@ -26,6 +27,8 @@ def programs(draw, max_preds=5, allow_evidence=True, allow_neg=True, allow_rec=T
     preds = []
     for i in range(npred):
         arity = draw(st.sampled_from([0, 0, 1, 1, 1, 2]))
+        if share_bias and i == 0:
+            arity = 2  # an extensional binary relation that is called with different variable-sharing patterns
         stratum = 0 if i == 0 else draw(st.integers(0, 2))
         preds.append({"name": PRED_NAMES[i], "arity": arity, "stratum": stratum})
     prog = []
@@ -62,9 +65,17 @@ def programs(draw, max_preds=5, allow_evidence=True, allow_neg=True, allow_rec=T
             else:
                 p = draw(st.sampled_from(pos_cands))
                 args = []
+                same = None
+                if share_bias and p is preds[0] and draw(st.booleans()):
+                    same = draw(st.sampled_from(VARS))  # the same variable in every argument position
                 for _ in range(p["arity"]):
                     c = draw(st.integers(0, 3))
-                    if c == 0:
+                    if same is not None:
+                        v = same
+                        args.append(["v", v])
+                        if v not in bound:
+                            bound.append(v)
+                    elif c == 0:
                         args.append(_const(draw, consts))
                     else:
                         v = draw(st.sampled_from(VARS))
@@ -86,12 +97,12 @@ def programs(draw, max_preds=5, allow_evidence=True, allow_neg=True, allow_rec=T
         return [p["name"], args]
 
     for p in preds:
-        ncl = draw(st.integers(1, max_clauses))
+        ncl = draw(st.integers(1, max_clauses + (2 if share_bias and p is preds[0] else 0)))
         for ci in range(ncl):
-            kinds = ["fact", "pfact", "pfact", "rule", "rule"]
+            kinds = ["fact", "pfact", "pfact", "rule", "rule"] + (["rule_or"] if allow_body_or else [])
             if allow_ads:
                 kinds += ["adfact", "adrule", "prule"]
-            if p["stratum"] == 0 and ci == 0:
+            if (p["stratum"] == 0 and ci == 0) or (share_bias and p is preds[0]):
                 kinds = ["fact", "pfact", "pfact"] + (["adfact"] if allow_ads else [])
             kind = draw(st.sampled_from(kinds))
             if kind == "fact":
@@ -101,6 +112,12 @@ def programs(draw, max_preds=5, allow_evidence=True, allow_neg=True, allow_rec=T
             elif kind == "rule":
                 body, bound = body_for(p["stratum"], [p["name"]])
                 prog.append(["rule", head_atom(p, bound), body])
+            elif kind == "rule_or":
+                # head :- (alt1 ; alt2).   head variables must be bound in both branches
+                alt1, b1 = body_for(p["stratum"], [p["name"]])
+                alt2, b2 = body_for(p["stratum"], [p["name"]])
+                both = [v for v in b1 if v in b2]
+                prog.append(["rule_or", head_atom(p, both), [], alt1, alt2])
             elif kind == "prule":
                 body, bound = body_for(p["stratum"], [p["name"]])
                 prog.append(["ad", [[draw(st.sampled_from(grid)), head_atom(p, bound)]], body])
@@ -155,6 +172,9 @@ def programs(draw, max_preds=5, allow_evidence=True, allow_neg=True, allow_rec=T
 
 def pred_graph(prog):
     """Predicate dependency graph: {head pred: set((body pred, negative?))}."""
+    from pbt.ref.semantics import expand
+
+    prog = expand(prog)
     g = {}
     for s in prog:
         if s[0] == "rule":
@@ -226,7 +246,12 @@ def sccs(nodes, succ):
 
 
 def features(prog):
+    from pbt.ref.semantics import expand
+
     f = set()
+    if any(s[0] == "rule_or" for s in prog):
+        f.add("body-disjunction")
+    prog = expand(prog)
     g = pred_graph(prog)
     nodes = set(g)
     for d in g.values():
@@ -397,16 +422,41 @@ def cyclic_multihead_ad_with_complementary_body(prog):
 
 
 def shared_var_call(prog):
-    """Class of finding F-ENG-4: some body literal or query has the same variable in two argument positions."""
-    def rep(args):
-        vs = [t[1] for t in args if t[0] == "v"]
-        return len(vs) != len(set(vs))
+    """Class of finding F-ENG-4: some body literal or query has the same variable in two argument positions i, j
+    AND the called predicate has a clause with a non-empty body whose head arguments at i and j are not
+    syntactically identical (that clause body is then evaluated without the binding that identifies them)."""
+    from pbt.ref.semantics import expand
+
+    prog = expand(prog)
+    clauses = {}  # (pred, arity) -> list of head arg lists of clauses with a body
+    for s in prog:
+        if s[0] == "rule" and s[2]:
+            clauses.setdefault((s[1][0], len(s[1][1])), []).append(s[1][1])
+        elif s[0] == "ad" and s[2]:
+            for _, a in s[1]:
+                clauses.setdefault((a[0], len(a[1])), []).append(a[1])
+
+    def bad(pred, args):
+        pos = {}
+        for i, t in enumerate(args):
+            if t[0] == "v":
+                pos.setdefault(t[1], []).append(i)
+        for v, ps in pos.items():
+            if len(ps) < 2:
+                continue
+            for hargs in clauses.get((pred, len(args)), ()):
+                for i in ps:
+                    for j in ps:
+                        if i < j and hargs[i] != hargs[j]:
+                            return True
+        return False
+
     for s in prog:
         if s[0] in ("rule", "ad"):
-            if any(rep(l[2]) for l in s[2]):
+            if any(bad(l[1], l[2]) for l in s[2]):
                 return True
         elif s[0] == "query":
-            if rep(s[1][1]):
+            if bad(s[1][0], s[1][1]):
                 return True
     return False
 
@@ -432,4 +482,44 @@ def pos_and_neg_recursion_same_scc(prog):
                         pos = True
         if pos and neg:
             return True
+    return False
+
+
+
+def zero_prob_or_complementary_body(prog):
+    """Class of finding F-C07-1: the program has a probability-0 annotation, or a clause body with a positive and
+    a negative literal on the same predicate (such conjunctions fold to FALSE only when both literals meet in
+    one add_and call, so whether a zero-probability instance is listed depends on evaluation order)."""
+    from pbt.ref.semantics import expand
+
+    for s in expand(prog):
+        if s[0] == "pfact" and float(s[1]) == 0.0:
+            return True
+        if s[0] == "ad":
+            if any(float(p) == 0.0 for p, _ in s[1]):
+                return True
+        if s[0] in ("rule", "ad"):
+            pos = set((l[1], len(l[2])) for l in s[2] if not l[0])
+            neg = set((l[1], len(l[2])) for l in s[2] if l[0])
+            if pos & neg:
+                return True
+    return False
+
+
+def cyclic_body_disjunction_with_complement(prog):
+    """Class of finding F-ENG-6: a clause with a body disjunction (rule_or) whose head predicate is recursive and
+    one of whose alternatives contains a positive and a negative literal on the same predicate (that alternative
+    folds to the FALSE node)."""
+    g, nodes, cyc = cyclic_preds(prog)
+    for s in prog:
+        if s[0] != "rule_or":
+            continue
+        if (s[1][0], len(s[1][1])) not in cyc:
+            continue
+        for alt in (s[3], s[4]):
+            lits = list(s[2]) + list(alt)
+            pos = set((l[1], len(l[2])) for l in lits if not l[0])
+            neg = set((l[1], len(l[2])) for l in lits if l[0])
+            if pos & neg:
+                return True
     return False
